@@ -47,7 +47,7 @@ class FunctionTrace:
 
         def cb(code, offset):
             fn = code.co_filename
-            if fn.startswith(prefix):
+            if fn.startswith(prefix) and code.co_flags & 0x1:   # CO_OPTIMIZED: functions only
                 self.seen.add("%s:%s" % (fn[len(REPO) + 1:], code.co_qualname))
             return mon.DISABLE
 
